@@ -37,6 +37,10 @@ type Doc struct {
 	// classify (HTML without doctype / <html>): admitted by extension only.
 	Sniffable bool
 	Variant   string
+	// Mentions: further members (never a marker) whose names / stored data
+	// quote other formats' signatures; layouts place them first, last and
+	// in between (mention.go).
+	Mentions []writers.Member
 }
 
 func (d *Doc) IsZip() bool { return d.Members != nil }
@@ -52,8 +56,46 @@ const xmlDecl = `<?xml version="1.0" encoding="UTF-8" standalone="yes"?>` + "\n"
 
 // ---- PDF ---------------------------------------------------------------------
 
+// pdfExtra: content that a valid PDF may carry beside its page text.
+type pdfExtra struct {
+	// Mark is placed so that it starts At bytes into the file (filler comment
+	// lines bring the file up to that length; if the file is already longer
+	// the mark comes as early as possible).  Where selects the carrier:
+	//   "comment"  a comment line between the header and the first object
+	//   "stream"   the data of an unreferenced stream object written first
+	//   "text"     a second text-showing operation of the page content,
+	//              the content stream being written first
+	//   "title"    /Title of the document information dictionary, written first
+	Mark  []byte
+	Where string
+	At    int
+}
+
+// pdfLit writes a PDF literal string (7.3.4.2).
+func pdfLit(s []byte) string {
+	var b strings.Builder
+	b.WriteByte('(')
+	for _, c := range s {
+		switch c {
+		case '(', ')', '\\':
+			b.WriteByte('\\')
+			b.WriteByte(c)
+		case '\n':
+			b.WriteString("\\n")
+		case '\r':
+			b.WriteString("\\r")
+		default:
+			b.WriteByte(c)
+		}
+	}
+	b.WriteByte(')')
+	return b.String()
+}
+
 // pdfDoc writes a one-page PDF with a classic cross-reference table.
-func pdfDoc(r *hx.Rng, token string) *Doc {
+func pdfDoc(r *hx.Rng, token string) *Doc { return pdfDocExtra(r, token, nil) }
+
+func pdfDocExtra(r *hx.Rng, token string, x *pdfExtra) *Doc {
 	var b bytes.Buffer
 	ver := hx.Pick(r, []string{"1.4", "1.7", "1.3", "2.0"})
 	fmt.Fprintf(&b, "%%PDF-%s\n", ver)
@@ -67,13 +109,65 @@ func pdfDoc(r *hx.Rng, token string) *Doc {
 		"<< /Type /Catalog /Pages 2 0 R >>",
 		"<< /Type /Pages /Kids [3 0 R] /Count 1 >>",
 		"<< /Type /Page /Parent 2 0 R /MediaBox [0 0 612 792] /Contents 4 0 R /Resources << /Font << /F1 5 0 R >> >> >>",
-		fmt.Sprintf("<< /Length %d >>\nstream\n%s\nendstream", len(content), content),
+		"", // content stream, below
 		"<< /Type /Font /Subtype /Type1 /BaseFont /Helvetica /Encoding /WinAnsiEncoding >>",
 	}
+	first := -1 // object written first (index into objs)
+	info := 0
+	prefix := 0 // bytes between the start of the first object and the mark
+	if x != nil {
+		switch x.Where {
+		case "stream":
+			objs = append(objs, fmt.Sprintf("<< /Length %d >>\nstream\n%s\nendstream", len(x.Mark), x.Mark))
+			first = len(objs) - 1
+			prefix = len(fmt.Sprintf("%d 0 obj\n<< /Length %d >>\nstream\n", first+1, len(x.Mark)))
+		case "text":
+			lead := "BT /F1 12 Tf 72 690 Td "
+			content = lead + pdfLit(x.Mark) + " Tj ET\n" + content
+			first = 3
+			prefix = len(fmt.Sprintf("4 0 obj\n<< /Length %d >>\nstream\n", len(content))) + len(lead) + 1
+		case "title":
+			objs = append(objs, "<< /Title "+pdfLit(x.Mark)+" /Producer (c20 harness) >>")
+			first = len(objs) - 1
+			info = first + 1
+			prefix = len(fmt.Sprintf("%d 0 obj\n<< /Title (", first+1))
+		case "comment":
+			prefix = 1
+		default:
+			panic("pdfExtra.Where: " + x.Where)
+		}
+		// filler comment lines of at most 72 bytes, each at least "%\n"
+		for pad := x.At - prefix - b.Len(); pad >= 2; {
+			n := pad
+			if n > 72 {
+				n = 72
+			}
+			if pad-n == 1 {
+				n--
+			}
+			b.WriteString("%" + strings.Repeat("-", n-2) + "\n")
+			pad -= n
+		}
+		if x.Where == "comment" {
+			b.WriteString("%")
+			b.Write(x.Mark)
+			b.WriteString("\n")
+		}
+	}
+	objs[3] = fmt.Sprintf("<< /Length %d >>\nstream\n%s\nendstream", len(content), content)
 	offs := make([]int, len(objs))
-	for i, o := range objs {
+	order := make([]int, 0, len(objs))
+	if first >= 0 {
+		order = append(order, first)
+	}
+	for i := range objs {
+		if i != first {
+			order = append(order, i)
+		}
+	}
+	for _, i := range order {
 		offs[i] = b.Len()
-		fmt.Fprintf(&b, "%d 0 obj\n%s\nendobj\n", i+1, o)
+		fmt.Fprintf(&b, "%d 0 obj\n%s\nendobj\n", i+1, objs[i])
 	}
 	xref := b.Len()
 	fmt.Fprintf(&b, "xref\n0 %d\n", len(objs)+1)
@@ -81,16 +175,24 @@ func pdfDoc(r *hx.Rng, token string) *Doc {
 	for _, o := range offs {
 		fmt.Fprintf(&b, "%010d 00000 n \n", o)
 	}
-	fmt.Fprintf(&b, "trailer\n<< /Size %d /Root 1 0 R >>\nstartxref\n%d\n%%%%EOF\n", len(objs)+1, xref)
+	infoRef := ""
+	if info > 0 {
+		infoRef = fmt.Sprintf(" /Info %d 0 R", info)
+	}
+	fmt.Fprintf(&b, "trailer\n<< /Size %d /Root 1 0 R%s >>\nstartxref\n%d\n%%%%EOF\n", len(objs)+1, infoRef, xref)
+	if x != nil {
+		variant += fmt.Sprintf("-%s@%d", x.Where, bytes.Index(b.Bytes()[1:], x.Mark)+1)
+	}
 	return &Doc{Format: FPDF, Raw: b.Bytes(), Token: token, Sniffable: true, Variant: variant}
 }
 
 // ---- HTML --------------------------------------------------------------------
 
-func htmlDoc(r *hx.Rng, token string) *Doc {
-	body := fmt.Sprintf("<head><title>T %s</title></head>\n<body>\n<h1>Heading</h1>\n<p>%s paragraph text.</p>\n</body>\n</html>\n", token, token)
-	type v struct{ name, head string }
-	vs := []v{
+type htmlHead struct{ name, head string }
+
+// htmlHeads: the openings a sniffer is documented to recognise.
+func htmlHeads() []htmlHead {
+	return []htmlHead{
 		{"html5", "<!DOCTYPE html>\n<html lang=\"en\">\n"},
 		{"html5-lower", "<!doctype html>\n<html>\n"},
 		{"html5-mixed", "<!DocType Html>\n<HTML>\n"},
@@ -101,7 +203,11 @@ func htmlDoc(r *hx.Rng, token string) *Doc {
 		{"html-tag-only", "<html>\n"},
 		{"html-tag-upper", "  <HTML LANG=\"en\">\n"},
 	}
-	c := hx.Pick(r, vs)
+}
+
+func htmlDoc(r *hx.Rng, token string) *Doc {
+	body := fmt.Sprintf("<head><title>T %s</title></head>\n<body>\n<h1>Heading</h1>\n<p>%s paragraph text.</p>\n</body>\n</html>\n", token, token)
+	c := hx.Pick(r, htmlHeads())
 	return &Doc{Format: FHTML, Raw: []byte(c.head + body), Token: token, Sniffable: true, Variant: c.name}
 }
 
@@ -148,10 +254,17 @@ const relOfficeDoc = "http://schemas.openxmlformats.org/officeDocument/2006/rela
 
 // ---- DOCX --------------------------------------------------------------------
 
-func docxDoc(r *hx.Rng, token string) *Doc {
+func docxDoc(r *hx.Rng, token string) *Doc { return docxDocParas(r, token, nil, nil) }
+
+// docxDocParas: pre/post are further plain-text paragraphs (escaped here)
+// before and after the generated ones.
+func docxDocParas(r *hx.Rng, token string, pre, post []string) *Doc {
 	var b strings.Builder
 	b.WriteString(xmlDecl)
 	b.WriteString(`<w:document xmlns:w="http://schemas.openxmlformats.org/wordprocessingml/2006/main"><w:body>`)
+	for _, t := range pre {
+		fmt.Fprintf(&b, `<w:p><w:r><w:t xml:space="preserve">%s</w:t></w:r></w:p>`, writers.XMLEsc(t))
+	}
 	n := r.Range(1, 3)
 	for i := 0; i < n; i++ {
 		t := "filler paragraph"
@@ -159,6 +272,9 @@ func docxDoc(r *hx.Rng, token string) *Doc {
 			t = token + " word text"
 		}
 		fmt.Fprintf(&b, `<w:p><w:r><w:t xml:space="preserve">%s</w:t></w:r></w:p>`, t)
+	}
+	for _, t := range post {
+		fmt.Fprintf(&b, `<w:p><w:r><w:t xml:space="preserve">%s</w:t></w:r></w:p>`, writers.XMLEsc(t))
 	}
 	b.WriteString(`<w:sectPr/></w:body></w:document>`)
 	ms := []writers.Member{
@@ -175,7 +291,11 @@ func docxDoc(r *hx.Rng, token string) *Doc {
 
 // ---- XLSX (shared writer of the harness) -------------------------------------
 
-func xlsxDoc(r *hx.Rng, token string) *Doc {
+func xlsxDoc(r *hx.Rng, token string) *Doc { return xlsxDocCells(r, token, nil) }
+
+// xlsxDocCells: extra are further plain-text shared strings, one per row in
+// column A below the generated row.
+func xlsxDocCells(r *hx.Rng, token string, extra []string) *Doc {
 	is := token
 	wb := writers.XWorkbook{
 		Shared: []writers.XSI{{Plain: token + " cell"}},
@@ -186,12 +306,28 @@ func xlsxDoc(r *hx.Rng, token string) *Doc {
 				{Ref: "C1", T: "inlineStr", Is: &is},
 			}}}}},
 	}
+	for i, t := range extra {
+		wb.Shared = append(wb.Shared, writers.XSI{Plain: t})
+		wb.Sheets[0].Rows = append(wb.Sheets[0].Rows, writers.XRow{R: i + 2, Cells: []writers.XCell{
+			{Ref: fmt.Sprintf("A%d", i+2), T: "s", V: fmt.Sprint(i + 1), HasV: true}}})
+	}
 	return &Doc{Format: FXLSX, Members: writers.XLSXMembers(wb), Token: token, Sniffable: true, Variant: "xlsx"}
 }
 
 // ---- PPTX --------------------------------------------------------------------
 
-func pptxDoc(r *hx.Rng, token string) *Doc {
+func pptxDoc(r *hx.Rng, token string) *Doc { return pptxDocParas(r, token, nil, nil) }
+
+// pptxDocParas: pre/post are further plain-text paragraphs of the first
+// slide's body placeholder.
+func pptxDocParas(r *hx.Rng, token string, pre, post []string) *Doc {
+	paras := func(ts []string) string {
+		var b strings.Builder
+		for _, t := range ts {
+			b.WriteString(`<a:p><a:r><a:t>` + writers.XMLEsc(t) + `</a:t></a:r></a:p>`)
+		}
+		return b.String()
+	}
 	n := r.Range(1, 2)
 	pres := xmlDecl + `<p:presentation xmlns:a="http://schemas.openxmlformats.org/drawingml/2006/main" xmlns:r="http://schemas.openxmlformats.org/officeDocument/2006/relationships" xmlns:p="http://schemas.openxmlformats.org/presentationml/2006/main"><p:sldIdLst>`
 	var prels [][3]string
@@ -202,11 +338,13 @@ func pptxDoc(r *hx.Rng, token string) *Doc {
 		prels = append(prels, [3]string{fmt.Sprintf("rId%d", i), "http://schemas.openxmlformats.org/officeDocument/2006/relationships/slide", fmt.Sprintf("slides/slide%d.xml", i)})
 		ct = append(ct, [2]string{fmt.Sprintf("/ppt/slides/slide%d.xml", i), "application/vnd.openxmlformats-officedocument.presentationml.slide+xml"})
 		t := "other slide"
+		before, after := "", ""
 		if i == 1 {
 			t = token + " slide text"
+			before, after = paras(pre), paras(post)
 		}
 		s := xmlDecl + `<p:sld xmlns:a="http://schemas.openxmlformats.org/drawingml/2006/main" xmlns:r="http://schemas.openxmlformats.org/officeDocument/2006/relationships" xmlns:p="http://schemas.openxmlformats.org/presentationml/2006/main"><p:cSld><p:spTree><p:nvGrpSpPr><p:cNvPr id="1" name=""/><p:cNvGrpSpPr/><p:nvPr/></p:nvGrpSpPr><p:grpSpPr/>` +
-			`<p:sp><p:nvSpPr><p:cNvPr id="2" name="Content 1"/><p:cNvSpPr/><p:nvPr><p:ph type="body" idx="1"/></p:nvPr></p:nvSpPr><p:spPr/><p:txBody><a:bodyPr/><a:p><a:r><a:t>` + t + `</a:t></a:r></a:p></p:txBody></p:sp></p:spTree></p:cSld></p:sld>`
+			`<p:sp><p:nvSpPr><p:cNvPr id="2" name="Content 1"/><p:cNvSpPr/><p:nvPr><p:ph type="body" idx="1"/></p:nvPr></p:nvSpPr><p:spPr/><p:txBody><a:bodyPr/>` + before + `<a:p><a:r><a:t>` + t + `</a:t></a:r></a:p>` + after + `</p:txBody></p:sp></p:spTree></p:cSld></p:sld>`
 		slides = append(slides, writers.Member{Name: fmt.Sprintf("ppt/slides/slide%d.xml", i), Data: []byte(s)})
 		slides = append(slides, writers.Member{Name: fmt.Sprintf("ppt/slides/_rels/slide%d.xml.rels", i), Data: rels(nil)})
 	}
@@ -225,16 +363,29 @@ func pptxDoc(r *hx.Rng, token string) *Doc {
 
 const odtMime = "application/vnd.oasis.opendocument.text"
 
-func odtContent(text string) []byte {
+func odtContent(text string) []byte { return odtContentParas(text, nil, nil) }
+
+// odtContentParas: text is inserted as is (XML), pre/post are plain-text
+// paragraphs (escaped here) before and after it.
+func odtContentParas(text string, pre, post []string) []byte {
+	paras := func(ts []string) string {
+		var b strings.Builder
+		for _, t := range ts {
+			b.WriteString(`<text:p text:style-name="Standard">` + writers.XMLEsc(t) + `</text:p>`)
+		}
+		return b.String()
+	}
 	return []byte(`<?xml version="1.0" encoding="UTF-8"?>` + "\n" +
-		`<office:document-content xmlns:office="urn:oasis:names:tc:opendocument:xmlns:office:1.0" xmlns:style="urn:oasis:names:tc:opendocument:xmlns:style:1.0" xmlns:text="urn:oasis:names:tc:opendocument:xmlns:text:1.0" xmlns:table="urn:oasis:names:tc:opendocument:xmlns:table:1.0" office:version="1.2"><office:automatic-styles/><office:body><office:text><text:p text:style-name="Standard">` +
-		text + `</text:p></office:text></office:body></office:document-content>`)
+		`<office:document-content xmlns:office="urn:oasis:names:tc:opendocument:xmlns:office:1.0" xmlns:style="urn:oasis:names:tc:opendocument:xmlns:style:1.0" xmlns:text="urn:oasis:names:tc:opendocument:xmlns:text:1.0" xmlns:table="urn:oasis:names:tc:opendocument:xmlns:table:1.0" office:version="1.2"><office:automatic-styles/><office:body><office:text>` + paras(pre) + `<text:p text:style-name="Standard">` +
+		text + `</text:p>` + paras(post) + `</office:text></office:body></office:document-content>`)
 }
 
-func odtDoc(r *hx.Rng, token string) *Doc {
+func odtDoc(r *hx.Rng, token string) *Doc { return odtDocParas(r, token, nil, nil) }
+
+func odtDocParas(r *hx.Rng, token string, pre, post []string) *Doc {
 	ms := []writers.Member{
 		{Name: "mimetype", Data: []byte(odtMime), Store: true},
-		{Name: "content.xml", Data: odtContent(token + " odt text")},
+		{Name: "content.xml", Data: odtContentParas(token+" odt text", pre, post)},
 		{Name: "styles.xml", Data: []byte(`<?xml version="1.0" encoding="UTF-8"?>` + "\n" + `<office:document-styles xmlns:office="urn:oasis:names:tc:opendocument:xmlns:office:1.0" office:version="1.2"/>`)},
 		{Name: "meta.xml", Data: []byte(`<?xml version="1.0" encoding="UTF-8"?>` + "\n" + `<office:document-meta xmlns:office="urn:oasis:names:tc:opendocument:xmlns:office:1.0" office:version="1.2"><office:meta/></office:document-meta>`)},
 		{Name: "META-INF/manifest.xml", Data: []byte(`<?xml version="1.0" encoding="UTF-8"?>` + "\n" +
@@ -289,9 +440,20 @@ func hrefEsc(p string) string {
 	return b.String()
 }
 
-func xhtmlChapter(title, text string) []byte {
+func xhtmlChapter(title, text string) []byte { return xhtmlChapterParas(title, text, nil, nil) }
+
+// xhtmlChapterParas: title and text are inserted as is, pre/post are
+// plain-text paragraphs (escaped here) before and after the text.
+func xhtmlChapterParas(title, text string, pre, post []string) []byte {
+	paras := func(ts []string) string {
+		var b strings.Builder
+		for _, t := range ts {
+			b.WriteString(`<p>` + writers.XMLEsc(t) + `</p>`)
+		}
+		return b.String()
+	}
 	return []byte(`<?xml version="1.0" encoding="UTF-8"?>` + "\n" + `<!DOCTYPE html>` + "\n" +
-		`<html xmlns="http://www.w3.org/1999/xhtml"><head><title>` + title + `</title><link rel="stylesheet" type="text/css" href="style.css"/></head><body><h1>` + title + `</h1><p>` + text + `</p></body></html>`)
+		`<html xmlns="http://www.w3.org/1999/xhtml"><head><title>` + title + `</title><link rel="stylesheet" type="text/css" href="style.css"/></head><body><h1>` + title + `</h1>` + paras(pre) + `<p>` + text + `</p>` + paras(post) + `</body></html>`)
 }
 
 func genEpub(r *hx.Rng, token string) *Epub {
